@@ -2,7 +2,7 @@
    to_json(), the state of the object that from_json gave back, Config.names()/[]/in results) and these
    functions say whether the models in Serial.v / ConfigKey.v predict exactly that.  Evaluated by vm_compute. *)
 From Coq Require Import ZArith NArith List Bool String.
-From V Require Import Model.Serial Model.SerialX Model.ConfigKey.
+From V Require Import Model.Serial Model.SerialX Model.SerialCtx Model.ConfigKey.
 Import ListNotations.
 
 (* ---------- Serial ---------- *)
@@ -122,6 +122,31 @@ Definition chk_ref (c : uctx * bool * dref * jv * obs_state * string * pk_ref * 
                    end
        end
   end.
+
+(* ---- one persistence context: the serialized forms in the order they were read, each with what came back
+        (full wire form of the result, None = from_simple raised); the model runs its memo table over the history ---- *)
+Fixpoint all2 {A B} (f : A -> B -> bool) (a : list A) (b : list B) : bool :=
+  match a, b with [], [] => true | x :: a', y :: b' => f x y && all2 f a' b' | _, _ => false end.
+Definition chk_ctx_dt (c : uctx * list (jv * option jv)) : bool :=
+  let (u, l) := c in
+  all2 (fun r o => match r, snd o with Some t, Some w => jv_eqb (enc_dt false t) w | None, None => true | _, _ => false end)
+       (dt_run u (map fst l)) l.
+Definition chk_ctx_coord (c : uctx * list (jv * option (jv * obs_state))) : bool :=
+  let (u, l) := c in
+  all2 (fun r o => match r, snd o with
+                   | Some x, Some (w, st) => jv_eqb (enc_coord false x) w && state_ok x st
+                   | None, None => true | _, _ => false end)
+       (coord_run u (map fst l)) l.
+Definition chk_ctx_rec (c : uctx * list (jv * option jv)) : bool :=
+  let (u, l) := c in
+  all2 (fun r o => match r, snd o with Some x, Some w => jv_eqb (enc_rec x) w | None, None => true | _, _ => false end)
+       (rec_run u (map fst l)) l.
+Definition chk_ctx_ref (c : uctx * list (jv * option (jv * obs_state))) : bool :=
+  let (u, l) := c in
+  all2 (fun r o => match r, snd o with
+                   | Some x, Some (w, st) => jv_eqb (enc_ref false x) w && state_ok (f_coord x) st
+                   | None, None => true | _, _ => false end)
+       (ref_run u (map fst l)) l.
 
 (* ---------- Config ---------- *)
 Fixpoint strs_eqb (a b : list str) : bool :=
